@@ -103,6 +103,12 @@ def join_all(threads):
         t.join()
 
 
+def block_forever():
+    """Engine B: the calling thread legitimately blocks for good here (e.g. a reader waiting for more input)"""
+    import threading
+    threading.Event().wait()
+
+
 def step():
     """Engine B: index of the scheduler step in which the caller's current block runs (a logical clock)"""
     return 0
@@ -224,6 +230,15 @@ def install(vm):
     def m_is_symbolic(vm, s, args, kw):
         return True
 
+    def lift_name(fn):
+        """the variable name may be a Union (e.g. derived from a loop index merged across states)"""
+        def m(vm, s, args, kw):
+            nm = args[0]
+            if type(nm) is Union:
+                return mk_union([(g, fn(vm, s, [x] + list(args[1:]), kw)) for g, x in nm.alts])
+            return fn(vm, s, args, kw)
+        return m
+    m_sym_bool, m_sym_int, m_sym_real = lift_name(m_sym_bool), lift_name(m_sym_int), lift_name(m_sym_real)
     vm.register_model(sym_bool, m_sym_bool)
     vm.register_model(sym_int, m_sym_int)
     vm.register_model(sym_real, m_sym_real)
@@ -235,6 +250,13 @@ def install(vm):
     vm.register_model(log, m_log)
     vm.register_model(is_symbolic, m_is_symbolic)
     vm.register_model(step, lambda vm, s, a, k: (vm.sched.k if vm.sched is not None else 0))
+
+    def m_block_forever(vm, s, args, kw):
+        from .vm import Park
+        if vm.sched is None:
+            raise Unsupported("block_forever() outside the scheduler")
+        raise Park(("forever",))
+    vm.register_model(block_forever, m_block_forever)
 
     def m_join_all(vm, s, args, kw):
         from . import containers as C
